@@ -251,6 +251,8 @@ class Effects(object):
                 chain.append((cur.func.attr, cur))
                 cur = cur.func.value
             elif isinstance(cur, ast.Attribute):
+                if self.table_of(f, cur):
+                    break
                 chain.append((cur.attr, None))
                 cur = cur.value
             else:
@@ -293,7 +295,7 @@ class Effects(object):
             if t and not chain:
                 return [('I', t, None, cur)]
             return None
-        if isinstance(cur, ast.Name):
+        if isinstance(cur, (ast.Name, ast.Attribute)):
             tbl = self.table_of(f, cur)
             if tbl and names and names[0] in ('insert', 'update', 'delete',
                                               'select'):
@@ -306,7 +308,7 @@ class Effects(object):
                     if nm == 'from_select' and call is not None:
                         cols = None
                 return [(op, tbl, cols, e)]
-            if names and (tbl is None):
+            if names and (tbl is None) and isinstance(cur, ast.Name):
                 # x = x.where(...): continue from the variable's definitions
                 r = self.classify(f, cur, at_stmt, depth + 1, _visiting)
                 if r is None:
